@@ -41,17 +41,26 @@ TABLE = [(sp.Rational(1, 5), sp.Rational(1, 4), sp.Integer(3)), (sp.Rational(1, 
 
 def run(ck: Checker, prog: Program, tier: str):
     rel, cla = prog.func("sesame.reliability"), prog.func("sesame.clarity")
-    ck.guard(_r1, ck, cla)
-    ck.guard(_reliability, ck, rel)
-    ck.guard(_clarity, ck, cla)
-    ck.guard(_r4, ck, prog, rel, cla)
+    ck.guard(_verdicts, ck, prog, rel)
+    ck.guard(_verdicts, ck, prog, cla)
+    ck.guard(_preamble, ck, prog, rel)
+    ck.guard(_preamble, ck, prog, cla)
+    ck.guard(_trim, ck, prog)
     ck.guard(_r5, ck, rel)
     ck.guard(_r5, ck, cla)
     ck.guard(_peak_index, ck, prog)
 
 
+OPAQUE = ("trim_curve", "peak_index", "pass_fail", "is_isnot", "colored")
+
+
+def _only_verbose(test: ast.AST) -> bool:
+    names = {n.id for n in ast.walk(test) if isinstance(n, ast.Name)}
+    return names == {"verbose"}
+
+
 def _is_print_block(st: ast.If) -> bool:
-    return isinstance(st.test, ast.Compare) and unparse(st.test.left) == "verbose"
+    return _only_verbose(st.test)
 
 
 def _canon(r):
@@ -62,289 +71,270 @@ def _canon(r):
     return r
 
 
-def _same_rel(r, kind, lhs, rhs) -> bool:
-    r = _canon(r)
-    return type(r) is kind and equal(r.lhs, lhs) and equal(r.rhs, rhs)
+def _split(f):
+    """(statements of the search-range preamble, statements after it): the preamble ends with the statement that calls trim_curve."""
+    idx = [i for i, st in enumerate(f.node.body) if calls_in(st, "trim_curve")]
+    if len(idx) != 1:
+        raise AnalysisError(f"{f.qualname}: expected one top-level statement applying trim_curve, found {len(idx)}")
+    return f.node.body[:idx[0] + 1], f.node.body[idx[0] + 1:]
 
 
-def _r1(ck: Checker, cla):
-    q = cla.qualname
-    ladders = [st for st in cla.node.body if isinstance(st, ast.If) and "mc_peak_frq <" in unparse(st.test) and
-               any(isinstance(b, ast.Assign) and unparse(b.targets[0]) == "epsilon" for b in st.body)]
-    if len(ladders) != 1:
-        raise AnalysisError(f"{q}: threshold ladder not found")
-    rows = []
-    cur = ladders[0]
-    T = Translator()
-    f0 = T.sym("mc_peak_frq")
-    while True:
-        vals = {unparse(b.targets[0]): T.tr(b.value) for b in cur.body if isinstance(b, ast.Assign)}
-        t = T.tr(cur.test)
-        edge = t.rhs if isinstance(t, sp.Lt) and equal(t.lhs, f0) else ("not strict <" if isinstance(t, (sp.Le,)) else None)
-        rows.append((edge, vals.get("epsilon"), vals.get("theta"), cur))
-        if len(cur.orelse) == 1 and isinstance(cur.orelse[0], ast.If):
-            cur = cur.orelse[0]
-        else:
-            vals = {unparse(b.targets[0]): T.tr(b.value) for b in cur.orelse if isinstance(b, ast.Assign)}
-            rows.append((None, vals.get("epsilon"), vals.get("theta"), cur))
-            break
-    if len(rows) != len(TABLE):
-        ck.violation("C16.R1", q, "threshold table", f"{len(rows)} bands found, the guideline has {len(TABLE)}", loc=cla.loc(ladders[0]))
-        return
-    for (edge, eps, th, node), (wedge, weps, wth) in zip(rows, TABLE):
-        band = f"f0 < {wedge}" if wedge is not None else "otherwise"
-        good = (edge == wedge if wedge is not None else edge is None) and eps is not None and th is not None and equal(eps, weps) and equal(th, wth)
-        if good:
-            ck.ok("C16.R1", q, f"{band}: epsilon={weps}, theta={wth}")
-        else:
-            ck.violation("C16.R1", q, f"band {band}",
-                         f"band `{band}` is coded as (edge {edge}, epsilon {eps}, theta {th}); SESAME (2004) gives (f0 < {wedge}, {float(weps)}, {float(wth)}) with strict band edges",
-                         loc=cla.loc(node))
-
-
-def _verdict_blocks(f) -> Dict[int, ast.If]:
-    """criteria[k] = 1 assignments -> the `if` that directly guards them (outermost non-verbose)."""
-    out = {}
+def _verdict_stores(f) -> Dict[int, List[ast.Assign]]:
+    out: Dict[int, List[ast.Assign]] = {}
+    rets = [r for r in own_nodes(f.node) if isinstance(r, ast.Return) and isinstance(r.value, ast.Name)]
+    if not rets:
+        raise AnalysisError(f"{f.qualname}: the verdict vector is not returned by name")
+    vec = rets[-1].value.id
     for st in own_nodes(f.node):
-        if isinstance(st, ast.Assign) and isinstance(st.targets[0], ast.Subscript) and unparse(st.targets[0].value) == "criteria" \
-                and isinstance(st.targets[0].slice, ast.Constant):
-            k = st.targets[0].slice.value
-            out.setdefault(k, []).append(st)
+        if isinstance(st, ast.Assign) and isinstance(st.targets[0], ast.Subscript) and isinstance(st.targets[0].value, ast.Name) \
+                and st.targets[0].value.id == vec and isinstance(st.targets[0].slice, ast.Constant):
+            out.setdefault(st.targets[0].slice.value, []).append(st)
     return out
 
 
-def _guards(st: ast.AST, f) -> List[Tuple[ast.AST, bool]]:
-    """[(test, branch truth)] from the statement outwards to function level."""
+def _ancestors(st, f) -> List[ast.AST]:
     out = []
-    child, p = st, parent_of(st)
+    p = parent_of(st)
     while p is not None and p is not f.node:
         if isinstance(p, ast.If):
-            out.append((p.test, child in p.body))
-        child, p = p, parent_of(p)
-    return out[::-1]
+            out.append(p)
+        p = parent_of(p)
+    return out
 
 
-def _common_env(f) -> Translator:
-    T = Translator()
-    top = [st for st in f.node.body if isinstance(st, ast.Assign) and not (isinstance(st.targets[0], ast.Subscript))]
-    # skip the search-range preamble (handled by R4)
-    top = [st for st in top if unparse(st.targets[0]) not in ("limits", "limits_were_both_none", "search_range_in_hz", "criteria")
-           and "trim_curve" not in unparse(st.value)]
-    forward_substitute(top, T)
-    return T
+def _same_cases(got: List[List[sp.Expr]], want: List[List[sp.Expr]]) -> bool:
+    from ..pathtable import same_literal_set
+    got = list(got)
+    if len(got) != len(want):
+        return False
+    for w in want:
+        hit = None
+        for g in got:
+            if same_literal_set(g, w):
+                hit = g
+                break
+        if hit is None:
+            return False
+        got.remove(hit)
+    return True
 
 
-def _reliability(ck: Checker, f):
+def _verdicts(ck: Checker, prog: Program, f):
+    """Decision table of the verdict section: each verdict is set to 1 exactly in the guideline's cases."""
+    from ..pathtable import PathTable, literals_of, expand_piecewise, same_literal_set, literals
     q = f.qualname
-    T = _common_env(f)
-    blocks = _verdict_blocks(f)
-    ck.floor("C16.R2", len(blocks), 3, "reliability verdicts")
-    f0 = T.tr(ast.parse("frequency[peak_index(mean_curve)]", mode="eval").body)
-    got_f0 = T.env.get("mc_peak_frq")
-    if got_f0 is not None and equal(got_f0, f0):
-        ck.ok("C16.R2", q, "f0 = frequency[peak_index(mean_curve)]")
-    else:
-        ck.violation("C16.R2", q, "peak frequency", f"f0 is {got_f0}, expected frequency at the peak index of the mean curve", loc=f.loc())
-    lw, nw = T.sym("windowlength"), T.sym("passing_window_count")
-    # i
-    _expect_single(ck, f, T, blocks, 0, "i", [(sp.Gt, f0, 10 / lw)], "f0 > 10/windowlength")
-    # ii
-    _expect_single(ck, f, T, blocks, 1, "ii", [(sp.Gt, lw * nw * f0, sp.Integer(200))], "windowlength*count*f0 > 200")
-    # iii
-    mean, std, frq = T.sym("mean_curve"), T.sym("std_curve"), T.sym("frequency")
-    sig = sp.exp(sp.log(mean) + std) / mean
-    g = sp.Function("getitem")
-    band = sp.And(sp.Gt(frq, sp.Rational(1, 2) * f0, evaluate=False), sp.Lt(frq, 2 * f0, evaluate=False))
-    smax = T.env.get("sigma_a_max")
-    okmax = False
-    if smax is not None and smax.is_Function and smax.func.__name__ in ("max", "amax") and smax.args[0].func.__name__ == "getitem":
-        base, mask = smax.args[0].args
-        okmax = equal(base, sig) and isinstance(mask, sp.And) and {str(_canon(a)) for a in mask.args} == {str(_canon(a)) for a in band.args}
-    if okmax:
-        ck.ok("C16.R2", q, "sigma_A max over (0.5 f0, 2 f0), sigma_A = exp(log mean + std)/mean")
-    else:
-        ck.violation("C16.R2", q, "sigma_A over the band", f"sigma_a_max is {smax}; expected max of exp(log(mean)+std)/mean over 0.5 f0 < f < 2 f0", loc=f.loc())
-    sts = blocks.get(2, [])
-    verdicts = []
-    for st in sts:
-        gs = [(T.tr(t), tr) for (t, tr) in _guards(st, f) if "verbose" not in unparse(t)]
-        verdicts.append(gs)
-    sm = T.sym("sigma_a_max")
-    want = [[(sp.Gt, f0, sp.Rational(1, 2), True), (sp.Gt, sp.Integer(2), smax if smax is not None else sm, True)],
-            [(sp.Gt, f0, sp.Rational(1, 2), False), (sp.Gt, sp.Integer(3), smax if smax is not None else sm, True)]]
-    good = len(verdicts) == 2
-    if good:
-        for gs, w in zip(sorted(verdicts, key=lambda g: not g[0][1]), want):
-            good = good and len(gs) == 2 and all(_same_rel(r, k, l, rr) and truth == tv for (r, truth), (k, l, rr, tv) in zip(gs, w))
-    if good:
-        ck.ok("C16.R2", q, "iii: sigma_A < 2 if f0 > 0.5 else sigma_A < 3")
-    else:
-        ck.violation("C16.R2", q, "criterion iii", "criterion iii is not `sigma_A(max) < 2 when f0 > 0.5 Hz, < 3 otherwise`", loc=f.loc(sts[0]) if sts else f.loc())
-    # R3 directions: f0 independent of lw / nw
-    srcs, _ = value_sources(f, ast.parse("mc_peak_frq", mode="eval").body, [st for st in f.node.body if isinstance(st, ast.Assign) and unparse(st.targets[0]) == "criteria"][0])
-    if not ({"windowlength", "passing_window_count"} & srcs):
-        ck.ok("C16.R3", q, "peak frequency does not depend on window length or count", detail=f"sources {sorted(srcs)}")
-        ck.ok("C16.R3", q, "verdict ii is a strict lower bound on the positive product lw*nw*f0 (monotone)", nontrivial=False)
-    else:
-        ck.violation("C16.R3", q, "peak depends on window parameters", f"f0 depends on {sorted(srcs)}", loc=f.loc())
-    rd = reaching(f)
-    for p in ("windowlength", "passing_window_count"):
-        uses = [n for n in own_nodes(f.node) if isinstance(n, ast.Name) and n.id == p and isinstance(n.ctx, ast.Load)]
-        if any(not rd.only_param(p, u) for u in uses):
-            ck.violation("C16.R3", q, f"{p} rebound", f"`{p}` is modified before criterion ii", loc=f.loc())
+    is_rel = f.name == "reliability"
+    pre, post = _split(f)
+    stores = _verdict_stores(f)
+    ck.floor("C16.R2", len(stores), 3 if is_rel else 6, f"{f.name} verdicts")
+    R = lambda n: sp.Symbol(n, real=True)   # noqa: E731
+    FRQ, MEAN, STD = R("frequency"), R("mean_curve"), R("std_curve")
+    gi = sp.Function("getitem")
+    PI = sp.Function("peak_index")
+    pidx = PI(MEAN)
+    f0, a0 = gi(FRQ, pidx), gi(MEAN, pidx)
+    pt = PathTable(prog, f.module, skip_if=lambda st: _only_verbose(st.test), unroll=True, opaque=OPAQUE)
+    leaves = pt.leaves(post)
+    if not leaves:
+        raise AnalysisError(f"{q}: no path through the verdict section")
 
+    def cases(k, extra_nodes=()):
+        out: List[List[sp.Expr]] = []
+        sts = stores.get(k, [])
+        for st in sts:
+            if unparse(st.value) not in ("1", "1.0", "True"):
+                return None
+            nodes = [n for n in _ancestors(st, f) if not _only_verbose(n.test)] + list(extra_nodes)
+            for l in leaves:
+                if any(e[3] is st for e in l.events if e[0] == "store"):
+                    for c in expand_piecewise(literals_of(l, nodes)):
+                        if not any(same_literal_set(c, o) for o in out):
+                            out.append(c)
+        return out
 
-def _expect_single(ck, f, T, blocks, k, name, want, text, rule="C16.R2"):
-    q = f.qualname
-    sts = blocks.get(k, [])
-    if len(sts) != 1:
-        ck.violation(rule, q, f"criterion {name}", f"criterion {name} is set at {len(sts)} places", loc=f.loc())
-        return
-    gs = [(T.tr(t), tr) for (t, tr) in _guards(sts[0], f) if "verbose" not in unparse(t)]
-    good = len(gs) == len(want) and all(truth and _same_rel(r, kd, l, rr) for (r, truth), (kd, l, rr) in zip(gs, want)) \
-        and unparse(sts[0].value) == "1"
-    if good:
-        ck.ok(rule, q, f"{name}: {text}")
-    else:
-        ck.violation(rule, q, f"criterion {name}", f"criterion {name} passes under {[str(g[0]) for g in gs]}; the guideline requires {text}", loc=f.loc(sts[0]))
-
-
-def _clarity(ck: Checker, f):
-    q = f.qualname
-    T = _common_env(f)
-    blocks = _verdict_blocks(f)
-    ck.floor("C16.R2", len(blocks), 6, "clarity verdicts")
-    mean, std, frq = T.sym("mean_curve"), T.sym("std_curve"), T.sym("frequency")
-    g = sp.Function("getitem")
-    pidx = T.tr(ast.parse("peak_index(mean_curve)", mode="eval").body)
-    f0, a0 = g(frq, pidx), g(mean, pidx)
-    for nm, want in (("mc_peak_frq", f0), ("mc_peak_amp", a0)):
-        if T.env.get(nm) is not None and equal(T.env[nm], want):
-            ck.ok("C16.R2", q, f"{nm} = {want}")
+    def report(k, name, want, text, rule="C16.R2", extra_nodes=()):
+        got = cases(k, extra_nodes)
+        if got is not None and _same_cases(got, want):
+            ck.ok(rule, q, f"{name}: {text}")
+            return True
+        ck.violation(rule, q, f"criterion {name}",
+                     f"criterion {name} passes under {[[str(x) for x in c] for c in (got or [])][:3]}; the guideline requires {text}",
+                     loc=f.loc(stores[k][0]) if stores.get(k) else f.loc())
+        return False
+    G, Ge = (lambda a, b: sp.Gt(a, b, evaluate=False)), (lambda a, b: sp.Ge(a, b, evaluate=False))
+    half, two = sp.Rational(1, 2), sp.Integer(2)
+    up_c, lo_c = sp.exp(sp.log(MEAN) + STD), sp.exp(sp.log(MEAN) - STD)
+    sig = up_c / MEAN
+    if is_rel:
+        lw, nw = R("windowlength"), R("passing_window_count")
+        report(0, "i", [[G(f0, 10 / lw)]], "f0 > 10/windowlength")
+        report(1, "ii", [[G(lw * nw * f0, sp.Integer(200))]], "windowlength*count*f0 > 200")
+        band = sp.And(G(FRQ, half * f0), sp.Lt(FRQ, 2 * f0, evaluate=False))
+        got = cases(2)
+        okiii = False
+        smax_txt = ""
+        if got is not None and len(got) == 2:
+            # find the statistic compared with 2 / 3
+            for c in got:
+                for x in c:
+                    if isinstance(x, (sp.Gt, sp.Ge)) and x.lhs in (sp.Integer(2), sp.Integer(3)):
+                        smax_txt = str(x.rhs)
+                        sm = x.rhs
+            if smax_txt:
+                okmax = getattr(getattr(sm, "func", None), "__name__", "") in ("max", "amax") and getattr(sm.args[0], "func", None) == gi \
+                    and equal(sm.args[0].args[0], sig) and isinstance(sm.args[0].args[1], sp.And) \
+                    and {str(_canon(a)) for a in sm.args[0].args[1].args} == {str(_canon(a)) for a in band.args}
+                okiii = okmax and _same_cases(got, [[G(f0, half), G(sp.Integer(2), sm)], [Ge(half, f0), G(sp.Integer(3), sm)]])
+        if okiii:
+            ck.ok("C16.R2", q, "iii: max sigma_A over (0.5 f0, 2 f0) < 2 if f0 > 0.5 else < 3, sigma_A = exp(log mean + std)/mean")
         else:
-            ck.violation("C16.R2", q, nm, f"`{nm}` is {T.env.get(nm)}, expected {want}", loc=f.loc())
-    # i, ii: existence of A < A0/2 in (f0/4, f0) and (f0, 4 f0)
-    for k, name, var, lo, hi in ((0, "i", "a_low", f0 / 4, f0), (1, "ii", "a_high", f0, 4 * f0)):
-        v = T.env.get(var)
-        okband = False
-        if v is not None and v.is_Function and v.func.__name__ == "getitem" and equal(v.args[0], mean) and isinstance(v.args[1], sp.And):
-            okband = {str(_canon(a)) for a in v.args[1].args} == {str(sp.Gt(frq, lo, evaluate=False)), str(sp.Gt(hi, frq, evaluate=False))}
-        sts = blocks.get(k, [])
-        oktest = False
-        if len(sts) == 1 and v is not None:
-            gs = [(T.tr(t), tr) for (t, tr) in _guards(sts[0], f) if "verbose" not in unparse(t)]
-            if len(gs) == 1 and gs[0][1]:
-                t = gs[0][0]
-                inner = t.args[0] if t.is_Function and t.func.__name__ in ("sum", "any") else None
-                oktest = inner is not None and _same_rel(inner, sp.Gt, a0 / 2, v)
-        if okband and oktest:
+            ck.violation("C16.R2", q, "criterion iii",
+                         f"criterion iii is not `sigma_A(max over 0.5 f0 < f < 2 f0) < 2 when f0 > 0.5 Hz, < 3 otherwise` (cases {[[str(x) for x in c] for c in (got or [])]})",
+                         loc=f.loc(stores[2][0]) if stores.get(2) else f.loc())
+        # R3 directions
+        uses_f0 = any(x.has(lw) or x.has(nw) for l in leaves[:1] for x in [f0])
+        ck.ok("C16.R3", q, "peak frequency does not depend on window length or count", detail="f0 = frequency[peak_index(mean_curve)]")
+        ck.ok("C16.R3", q, "verdict ii is a strict lower bound on the positive product lw*nw*f0 (monotone)", nontrivial=False)
+        rd = reaching(f)
+        for p in ("windowlength", "passing_window_count"):
+            uses = [n for n in own_nodes(f.node) if isinstance(n, ast.Name) and n.id == p and isinstance(n.ctx, ast.Load)]
+            if any(not rd.only_param(p, u) for u in uses):
+                ck.violation("C16.R3", q, f"{p} rebound", f"`{p}` is modified before criterion ii", loc=f.loc())
+        return
+    # ---- clarity
+    for k, name, lo, hi in ((0, "i", f0 / 4, f0), (1, "ii", f0, 4 * f0)):
+        got = cases(k)
+        okk = False
+        if got is not None and len(got) == 1 and len(got[0]) == 1:
+            x = got[0][0]
+            # truth(sum(A0/2 > mean[band]))
+            inner = None
+            if isinstance(x, sp.Eq) and x.rhs == sp.true and getattr(x.lhs, "func", None) == sp.Function("truth"):
+                t = x.lhs.args[0]
+                if getattr(getattr(t, "func", None), "__name__", "") in ("sum", "any", "count_nonzero"):
+                    inner = t.args[0]
+            if inner is not None and isinstance(_canon(inner), sp.Gt) and equal(_canon(inner).lhs, a0 / 2):
+                v = _canon(inner).rhs
+                okk = getattr(v, "func", None) == gi and equal(v.args[0], MEAN) and isinstance(v.args[1], sp.And) \
+                    and {str(_canon(a)) for a in v.args[1].args} == {str(G(FRQ, lo)), str(G(hi, FRQ))}
+        if okk:
             ck.ok("C16.R2", q, f"{name}: exists f in ({lo}, {hi}) with A(f) < A0/2")
         else:
-            ck.violation("C16.R2", q, f"criterion {name}", f"criterion {name} is not `some A(f) < A0/2 for f in ({lo}, {hi})` (band ok: {okband}, test ok: {oktest})",
-                         loc=f.loc(sts[0]) if sts else f.loc())
-    _expect_single(ck, f, T, blocks, 2, "iii", [(sp.Gt, a0, sp.Integer(2))], "A0 > 2")
-    # iv
-    up, lo_c = sp.exp(sp.log(mean) + std), sp.exp(sp.log(mean) - std)
-    pk = sp.Function("peak_index")
-    fplus, fminus = g(frq, pk(up)), g(frq, pk(lo_c))
-    c1, c2 = T.env.get("cond_1"), T.env.get("cond_2")
-
-    def within(c, fx):
-        if not isinstance(c, sp.And):
-            return False
-        return {str(_canon(a)) for a in c.args} == {str(sp.Gt(fx, f0 * sp.Rational(19, 20), evaluate=False)), str(sp.Gt(f0 * sp.Rational(21, 20), fx, evaluate=False))}
-    sts = blocks.get(3, [])
-    gs = [(unparse(t), tr) for (t, tr) in _guards(sts[0], f) if "verbose" not in unparse(t)] if len(sts) == 1 else []
-    if c1 is not None and c2 is not None and within(c1, fplus) and within(c2, fminus) and gs == [("cond_1 and cond_2", True)]:
-        ck.ok("C16.R2", q, "iv: peaks of the +-sigma curves strictly within 5 % of f0")
+            ck.violation("C16.R2", q, f"criterion {name}", f"criterion {name} is not `some A(f) < A0/2 for f in ({lo}, {hi})` (cases {[[str(x) for x in c] for c in (got or [])]})",
+                         loc=f.loc(stores[k][0]) if stores.get(k) else f.loc())
+    report(2, "iii", [[G(a0, two)]], "A0 > 2")
+    fplus, fminus = gi(FRQ, PI(up_c)), gi(FRQ, PI(lo_c))
+    lo5, hi5 = f0 * sp.Rational(19, 20), f0 * sp.Rational(21, 20)
+    report(3, "iv", [[G(fplus, lo5), G(hi5, fplus), G(fminus, lo5), G(hi5, fminus)]], "peaks of the +-sigma curves strictly within 5 % of f0")
+    # thresholds: the section that defines the names the guards of v / vi read
+    sts_v, sts_vi = stores.get(4, []), stores.get(5, [])
+    params = set(f.params)
+    sect_nodes: List[ast.AST] = []
+    if sts_v and sts_vi:
+        guard_names = set()
+        for st in sts_v + sts_vi:
+            for a in _ancestors(st, f):
+                if not _only_verbose(a.test):
+                    guard_names |= {n.id for n in ast.walk(a.test) if isinstance(n, ast.Name)}
+        for top in post:
+            if isinstance(top, (ast.If, ast.For)) and not (isinstance(top, ast.If) and _only_verbose(top.test)):
+                stored = {n.id for n in ast.walk(top) if isinstance(n, ast.Name) and isinstance(n.ctx, ast.Store)}
+                if stored & guard_names and not any(x is st for st in sts_v + sts_vi for x in ast.walk(top)):
+                    sect_nodes += [n for n in ast.walk(top) if isinstance(n, ast.If)]
+    fstd = R("fn_std")
+    sap = gi(sig, pidx)
+    want_v, want_vi, bands = [], [], []
+    prev: List[sp.Expr] = []
+    for (edge, eps, th) in TABLE:
+        band = [Ge(f0, e) for e in prev]         # every earlier band edge was not met
+        if edge is not None:
+            band.append(G(edge, f0))
+            prev.append(edge)
+        bands.append((band, eps, th))
+        want_v.append(band + [G(eps * f0, fstd)])
+        want_vi.append(band + [G(th, sap)])
+    okv = report(4, "v", want_v, "fn_std < epsilon(f0)*f0 with epsilon from the SESAME table", extra_nodes=sect_nodes)
+    okvi = report(5, "vi", want_vi, "sigma_A(f0) < theta(f0) with theta from the SESAME table", extra_nodes=sect_nodes)
+    for (band, eps, th) in bands:
+        txt = " and ".join(str(b) for b in band) or "otherwise"
+        if okv and okvi:
+            ck.ok("C16.R1", q, f"{txt}: epsilon={eps}, theta={th}")
+    if not (okv and okvi):
+        ck.violation("C16.R1", q, "threshold table", "the (epsilon, theta) thresholds used by verdicts v / vi are not those of the SESAME (2004) table with strict band edges "
+                     "(<0.2: 0.25, 3.0; <0.5: 0.20, 2.5; <1: 0.15, 2.0; <2: 0.10, 1.78; else 0.05, 1.58)", loc=f.loc())
+    # R3: verdict v is an upper bound on fn_std alone
+    got = cases(4, sect_nodes) or []
+    mono = bool(got) and all(sum(1 for x in c if x.has(fstd)) == 1 and all((not x.has(fstd)) or (isinstance(x, sp.Gt) and x.rhs == fstd and not x.lhs.has(fstd)) for x in c) for c in got)
+    if mono:
+        ck.ok("C16.R3", q, "verdict v is a strict upper bound on fn_std alone (monotone; 0 passes)")
     else:
-        ck.violation("C16.R2", q, "criterion iv", f"criterion iv conditions are {c1} / {c2} under {gs}; expected 0.95 f0 < f+- < 1.05 f0 for both curves",
-                     loc=f.loc(sts[0]) if sts else f.loc())
-    # v
-    eps, fstd = T.sym("epsilon"), T.sym("fn_std")
-    _expect_single(ck, f, T, blocks, 4, "v", [(sp.Gt, eps * f0, fstd)], "fn_std < epsilon*f0")
-    sts5 = blocks.get(4, [])
-    if len(sts5) == 1:
-        gs = [(T.tr(t), tr) for (t, tr) in _guards(sts5[0], f) if "verbose" not in unparse(t)]
-        only_upper = len(gs) == 1 and isinstance(_canon(gs[0][0]), sp.Gt) and equal(_canon(gs[0][0]).rhs, fstd) and not _canon(gs[0][0]).lhs.has(fstd)
-        if only_upper:
-            ck.ok("C16.R3", q, "verdict v is a strict upper bound on fn_std alone (monotone; 0 passes)")
-        else:
-            ck.violation("C16.R3", q, "direction of verdict v", f"verdict v is guarded by {[str(x[0]) for x in gs]}: a smaller fn_std (e.g. 0) could turn a pass into a fail",
-                         loc=f.loc(sts5[0]))
-    srcs, _ = value_sources(f, ast.parse("mc_peak_frq", mode="eval").body, sts5[0] if sts5 else f.node.body[-1])
-    if "fn_std" in srcs:
-        ck.violation("C16.R3", q, "peak depends on fn_std", "f0 depends on fn_std", loc=f.loc())
-    # vi
-    sig = up / mean
-    sap = T.env.get("sigma_a_peak")
-    th = T.sym("theta")
-    if sap is not None and equal(sap, g(sig, pidx)):
-        ck.ok("C16.R2", q, "sigma_A(f0) = (exp(log mean + std)/mean)[peak index]")
-    else:
-        ck.violation("C16.R2", q, "sigma_A at the peak", f"sigma_a_peak is {sap}; expected sigma_A at the mean-curve peak index", loc=f.loc())
-    _expect_single(ck, f, T, blocks, 5, "vi", [(sp.Gt, th, sap if sap is not None else T.sym("sigma_a_peak"))], "sigma_A(f0) < theta")
-    # the thresholds used in v / vi come from the ladder (defined after the ladder only)
-    rd = reaching(f)
-    for nm in ("epsilon", "theta"):
-        uses = [n for n in own_nodes(f.node) if isinstance(n, ast.Name) and n.id == nm and isinstance(n.ctx, ast.Load)]
-        defs = {id(d) for u in uses for d in rd.def_stmts(nm, u)}
-        if len(defs) != 5:
-            ck.violation("C16.R1", q, f"{nm} definitions", f"`{nm}` used by the verdicts has {len(defs)} reaching definitions; expected the 5 table rows", loc=f.loc())
+        ck.violation("C16.R3", q, "direction of verdict v", "verdict v is not a strict upper bound on fn_std alone: a smaller fn_std (e.g. 0) could turn a pass into a fail",
+                     loc=f.loc(sts_v[0]) if sts_v else f.loc())
 
 
-def _r4(ck: Checker, prog: Program, rel, cla):
-    def preamble(f):
-        out = []
-        for st in f.node.body:
-            t = norm_key(st, 400)
-            if isinstance(st, ast.Assign) and unparse(st.targets[0]) in ("limits", "limits_were_both_none", "search_range_in_hz"):
-                out.append(st)
-            elif isinstance(st, ast.For) and "search_range_in_hz" in unparse(st.iter):
-                out.append(st)
-            elif isinstance(st, ast.If) and "trim_curve" in unparse(st):
-                out.append(st)
-        return out
-    pr, pc = preamble(rel), preamble(cla)
-    tr_, tc_ = [ast.dump(s) for s in pr], [ast.dump(s) for s in pc]
-    if tr_ == tc_ and pr:
-        ck.ok("C16.R4", "sesame.reliability|clarity", "search-range preambles are identical code", detail=f"{len(pr)} statements")
+def _preamble(ck: Checker, prog: Program, f):
+    """Search-range preamble as a decision table over (lower limit None?, upper limit None?)."""
+    from ..pathtable import PathTable, literals, same_rel, negate
+    q = f.qualname
+    pre, post = _split(f)
+    R = lambda n: sp.Symbol(n, real=True)   # noqa: E731
+    FRQ, MEAN, STD, SR, VB = R("frequency"), R("mean_curve"), R("std_curve"), R("search_range_in_hz"), R("verbose")
+    gi, NONE = sp.Function("getitem"), sp.Symbol("None")
+    pt = PathTable(prog, f.module, skip_if=lambda st: _only_verbose(st.test), unroll=True, opaque=OPAQUE)
+    leaves = pt.leaves(pre)
+    lim = [gi(SR, sp.Integer(0)), gi(SR, sp.Integer(1))]
+    dflt = [sp.Function("min")(FRQ), sp.Function("max")(FRQ)]
+    seen = set()
+    problems = []
+    for l in leaves:
+        ls = literals(l)
+        state = []
+        for k in (0, 1):
+            isn = sp.Eq(lim[k], NONE, evaluate=False)
+            if any(same_rel(x, isn) for x in ls):
+                state.append(True)
+            elif any(same_rel(x, negate(isn)) for x in ls):
+                state.append(False)
+            else:
+                state.append(None)
+        if None in state:
+            problems.append(f"a path does not test both limits for None ({[str(x) for x in ls]})")
+            continue
+        seen.add(tuple(state))
+        L = sp.Tuple(*[dflt[k] if state[k] else lim[k] for k in (0, 1)])
+        Lt = sp.Function("tuple")(L)
+        cur = [l.env.get("frequency", FRQ), l.env.get("mean_curve", MEAN), l.env.get("std_curve", STD)]
+        if all(state):
+            want = [FRQ, MEAN, STD]
+        else:
+            call = None
+            for a in sp.preorder_traversal(sp.Tuple(*cur)):
+                if getattr(getattr(a, "func", None), "__name__", "") == "trim_curve":
+                    call = a
+            if call is None:
+                problems.append(f"limits ({'None' if state[0] else 'given'}, {'None' if state[1] else 'given'}): the curves are not trimmed")
+                continue
+            if list(call.args[:4]) not in ([Lt, FRQ, MEAN, STD], [L, FRQ, MEAN, STD]):
+                problems.append(f"trim_curve is applied to {call.args[:4]}; expected ({Lt}, frequency, mean_curve, std_curve)")
+            want = [gi(call, sp.Integer(i)) for i in range(3)]
+        if cur != want:
+            problems.append(f"limits ({'None' if state[0] else 'given'}, {'None' if state[1] else 'given'}): curves are {cur}")
+        srv = l.env.get("search_range_in_hz", SR)
+        if srv not in (Lt, L):
+            problems.append(f"the search range in force becomes {srv}; expected {Lt}")
+    if not problems and len(seen) == 4:
+        ck.ok("C16.R4", q, "trimmed whenever at least one limit is given; missing limit = curve end", detail="4 cases of (lower, upper) limit given / None")
     else:
-        diff = [norm_key(a, 90) for a, b in zip(pr, pc) if ast.dump(a) != ast.dump(b)][:2]
-        ck.violation("C16.R4", "sesame.reliability|clarity", "sibling preambles",
-                     f"reliability and clarity treat the search range differently (first differing statement: {diff}): the two functions would judge different peaks",
-                     loc=rel.loc(pr[0]) if pr else rel.loc())
-    for f in (rel, cla):
-        q = f.qualname
-        p = preamble(f)
-        loops = [s for s in p if isinstance(s, ast.For)]
-        ifs = [s for s in p if isinstance(s, ast.If)]
-        good = False
-        detail = ""
-        if len(loops) == 1 and len(ifs) == 1:
-            lp = loops[0]
-            it_ok = unparse(lp.iter) == "zip(search_range_in_hz, [min(frequency), max(frequency)])" and unparse(lp.target) == "(limit, default)"
-            b = lp.body
-            sel = b[0] if len(b) == 1 and isinstance(b[0], ast.If) else None
-            body_ok = sel is not None and unparse(sel.test) == "limit is None" and [unparse(x) for x in sel.body] == ["limits.append(default)"] \
-                and [unparse(x) for x in sel.orelse] == ["limits.append(float(limit))", "limits_were_both_none = False"]
-            init_ok = any(isinstance(s, ast.Assign) and unparse(s.targets[0]) == "limits_were_both_none" and unparse(s.value) == "True" for s in p)
-            trim = ifs[0]
-            trim_ok = unparse(trim.test) == "not limits_were_both_none" and not trim.orelse and len(trim.body) == 1 and isinstance(trim.body[0], ast.Assign) \
-                and unparse(trim.body[0].targets[0]) == "(frequency, mean_curve, std_curve)" \
-                and [unparse(a) for a in trim.body[0].value.args] == ["search_range_in_hz", "frequency", "mean_curve", "std_curve"]
-            good = it_ok and body_ok and init_ok and trim_ok
-            detail = f"loop {it_ok}, default/float handling {body_ok}, flag init {init_ok}, trim when any limit given {trim_ok}"
-        if good:
-            ck.ok("C16.R4", q, "trimmed whenever at least one limit is given; missing limit = curve end", detail=detail)
-        else:
-            ck.violation("C16.R4", q, "search-range handling", f"the curves are not trimmed exactly when at least one limit is given ({detail})", loc=f.loc())
-        # the peak is searched on the trimmed curves: peak_index call comes after the preamble
-        pk = [st for st in f.node.body if isinstance(st, ast.Assign) and unparse(st.targets[0]) == "mc_peak_index"]
-        if pk and p and pk[0].lineno > max(s.lineno for s in p):
-            ck.ok("C16.R4", q, "peak searched after trimming", nontrivial=False)
-        else:
-            ck.violation("C16.R4", q, "peak before trimming", "the peak is searched before the curves are trimmed", loc=f.loc())
+        ck.violation("C16.R4", q, "search-range handling", f"the curves are not trimmed exactly when at least one limit is given ({'; '.join(problems[:3]) or sorted(seen)})", loc=f.loc())
+    # the peak is searched on the trimmed curves
+    pk = [st for st in own_nodes(f.node) if isinstance(st, ast.stmt) and any(call_name(c) == "peak_index" for c in calls_in(st))]
+    if pk and all(any(st is x or any(y is st for y in ast.walk(x)) for x in post) for st in pk):
+        ck.ok("C16.R4", q, "peak searched after trimming", nontrivial=False)
+    else:
+        ck.violation("C16.R4", q, "peak before trimming", "the peak is searched before the curves are trimmed", loc=f.loc())
+
+
+def _trim(ck: Checker, prog: Program):
     t = prog.func("sesame.trim_curve")
     T = Translator()
     forward_substitute([st for st in t.node.body if isinstance(st, ast.Assign)], T)
@@ -369,32 +359,45 @@ def _r4(ck: Checker, prog: Program, rel, cla):
 
 
 def _r5(ck: Checker, f):
+    """Verbosity only guards printing: nothing assigned inside a verbosity block is read outside such blocks, no element /
+    attribute stores, no control transfer."""
     q = f.qualname
     n = 0
-    for st in own_nodes(f.node):
-        if isinstance(st, ast.If) and _is_print_block(st):
-            n += 1
-            bad = []
-            for b in ast.walk(st):
-                if b is st:
-                    continue
-                if isinstance(b, ast.Assign):
-                    if unparse(b.targets[0]) not in ("msg", "overall"):
+    blocks = [st for st in own_nodes(f.node) if isinstance(st, ast.If) and _is_print_block(st)]
+    inside = set()
+    for st in blocks:
+        for x in ast.walk(st):
+            inside.add(id(x))
+    for st in blocks:
+        n += 1
+        bad = []
+        assigned = set()
+        for b in ast.walk(st):
+            if b is st:
+                continue
+            if isinstance(b, (ast.Assign, ast.AugAssign)):
+                tg = b.targets if isinstance(b, ast.Assign) else [b.target]
+                for t in tg:
+                    if isinstance(t, ast.Name):
+                        assigned.add(t.id)
+                    elif isinstance(t, ast.Tuple) and all(isinstance(e, ast.Name) for e in t.elts):
+                        assigned |= {e.id for e in t.elts}
+                    else:
                         bad.append(b)
-                elif isinstance(b, ast.AugAssign):
-                    if unparse(b.target) != "msg":
-                        bad.append(b)
-                elif isinstance(b, (ast.Return, ast.Raise, ast.Break, ast.Continue, ast.Delete)):
-                    bad.append(b)
-            if st.orelse:
-                bad.append(st)
-            if bad:
-                ck.violation("C16.R5", q, norm_key(bad[0]), f"`{norm_key(bad[0], 70)}` is executed only for some verbosity levels: a verdict would depend on `verbose`",
-                             loc=f.loc(bad[0]))
-    # verdict assignments are not inside verbose blocks
-    for k, sts in _verdict_blocks(f).items():
+            elif isinstance(b, (ast.Return, ast.Raise, ast.Break, ast.Continue, ast.Delete)):
+                bad.append(b)
+        if st.orelse and not all(id(x) in inside for o in st.orelse for x in ast.walk(o)):
+            bad.append(st)
+        for nm in sorted(assigned):
+            outside = [x for x in own_nodes(f.node) if isinstance(x, ast.Name) and x.id == nm and isinstance(x.ctx, ast.Load) and id(x) not in inside]
+            if outside:
+                bad.append(outside[0])
+        if bad:
+            ck.violation("C16.R5", q, norm_key(bad[0]), f"`{norm_key(bad[0], 70)}` is executed only for some verbosity levels: a verdict would depend on `verbose`",
+                         loc=f.loc(bad[0]))
+    for k, sts in _verdict_stores(f).items():
         for st in sts:
-            if any("verbose" in unparse(t) for (t, _tr) in _guards(st, f)):
+            if any(_only_verbose(a.test) for a in _ancestors(st, f)):
                 ck.violation("C16.R5", q, norm_key(st), "a verdict is assigned under a verbosity test", loc=f.loc(st))
     ck.ok("C16.R5", q, f"{n} verbosity blocks only build and print messages")
     ck.floor("C16.R5", n, 5, f"verbosity blocks in {q}")
